@@ -14,6 +14,9 @@ TRUSTED_BASE = [
     "driven through every prior directory state x every crash point x one or two further starts, compared with the model's prediction "
     "(metadata current or not, index directory present or not after the kill; shipped answers and current metadata after the next "
     "complete start) and with an in-memory database",
+    "starts that keep their index in memory (Db::in_memory) are events of the model too: whether such a start writes meta.json is the guard "
+    "around config.write_meta() translated from src/db.rs (gen/DbSteps.v meta_written_when); histories kill -> in-memory start -> start are "
+    "run on the real code for every prior state and compared with the model",
 ]
 ASSUMPTIONS = [
     "PARTIAL: each persistent effect is atomic in the model (a torn meta.json is the 'garbage' state; tantivy's commit is atomic); "
@@ -214,10 +217,13 @@ def run(rng, tier, model_ok):
     mem_runs = 0
     for st in states:
         for cp in ((3, 6, 8, 10) if tier == "quick" else cps):
-            prepare(st)
+            code = prepare(st)
             sb.start(crash=cp)
             rcm, ansm = sb.start(memory=True)
+            m = sb.meta()
+            after = [1 if is_current(m) else 0, 1 if os.path.isdir(os.path.join(sb.data, "index")) else 0]
             rc, ans = sb.start()
+            cases.append((11, list(code) + [cp, -1], after + [1 if rc == 0 and ans == ref else 0, 1 if is_current(sb.meta()) else 0]))
             rc2, ans2 = (sb.start() if cp == 8 or tier == "thorough" else (0, ref))
             runs += 4
             mem_runs += 1
